@@ -25,6 +25,8 @@ pub use collections::{VecBuilder, IndexedResult, UniqueVector};
 pub use reference::{ObjectRef, ObjRef, Ref};
 pub use captures::Captures;
 pub use allocator::{Allocator, NO_GC};
+#[cfg(laythe_verif)]
+pub use allocator::verif as allocator_verif;
 pub use chunk::Chunk;
 pub use hooks::*;
 
